@@ -401,6 +401,140 @@ func emptyDocCases(r *Run) {
 	rec(nil, 3)
 }
 
+// ---------- text-level round trip with go-yaml as tables ----------
+
+var c13PlainDocs = []string{
+	"a: 1\n",
+	"apiVersion: v1\nkind: ConfigMap\nmetadata:\n  name: x\ndata:\n  k: v\n",
+	"kind: K\nmetadata:\n  name: y\n  annotations: {}\n",
+	"kind: K\nmetadata:\n  annotations:\n    keep: me\n  name: z\n",
+	"{}\n",
+	"metadata: {}\nspec:\n  l:\n  - 1\n  - b: c\n",
+	"k: |+\n  a\n\n",
+	"s: \"q\"\nt: 'r'\nu: [1, 2]\n",
+	"",
+	"null\n",
+}
+
+// decodeChunk does what ByteReader.decode does with go-yaml before it touches annotations.
+func decodeChunk(chunk string) (*kyaml.RNode, bool, error) {
+	node := &kyaml.Node{}
+	err := kyaml.NewDecoder(bytes.NewBufferString(chunk)).Decode(node)
+	if err != nil {
+		if err.Error() == "EOF" {
+			return nil, false, nil
+		}
+		return nil, false, err
+	}
+	if kyaml.IsYNodeEmptyDoc(node) {
+		return nil, false, nil
+	}
+	n := kyaml.NewRNode(node)
+	if kyaml.IsMissingOrNull(n) {
+		return nil, false, nil
+	}
+	return n, true, nil
+}
+
+func textStreamCases(r *Run, rng *Rng, n int) {
+	// comment-free streams only: comments are not part of the node model, so a comment that ends up inside a chunk
+	// (a "--- # c" line after another separator, or on the first line) would make the encoder table ambiguous
+	seps := []string{"---\n", "---\n", "---\t\n", "---   \n"}
+	for it := 0; it < n; it++ {
+		g := rng.Fork()
+		k := 1 + g.Intn(4)
+		var b strings.Builder
+		if g.Chance(20) {
+			b.WriteString("---\n")
+		}
+		for i := 0; i < k; i++ {
+			if i > 0 {
+				b.WriteString(g.Pick(seps))
+			}
+			b.WriteString(g.Pick(c13PlainDocs))
+		}
+		s := b.String()
+		if g.Chance(15) {
+			s = strings.TrimSuffix(s, "\n")
+		}
+		if g.Chance(15) {
+			s = strings.ReplaceAll(s, "\n", "\r\n")
+		}
+		desc := map[string]string{"kind": "text-stream", "s": s}
+		// tables: decoder on the chunks the reader must form, encoder on the cleared nodes
+		docs, err := kio.VerifC13SplitDocuments(strings.ReplaceAll(s, "\r\n", "\n"))
+		if err != nil {
+			continue
+		}
+		var decTerms, encTerms []string
+		seenDec := map[string]bool{}
+		seenEnc := map[string]bool{}
+		var allNodes []*kyaml.RNode
+		ok := true
+		for i, d := range docs {
+			if i != len(docs)-1 {
+				d += "\n"
+			}
+			if seenDec[d] {
+				continue
+			}
+			seenDec[d] = true
+			n, isDoc, err := decodeChunk(d)
+			if err != nil {
+				ok = false
+				break
+			}
+			if !isDoc {
+				decTerms = append(decTerms, fmt.Sprintf("(%s, None)", coqStr(d)))
+				continue
+			}
+			t, tok := nodeTerm(n)
+			if !tok {
+				ok = false
+				break
+			}
+			decTerms = append(decTerms, fmt.Sprintf("(%s, Some %s)", coqStr(d), t))
+			allNodes = append(allNodes, n)
+			// the cleared form and its encoding
+			c := n.Copy()
+			if err := kyaml.ClearEmptyAnnotations(c); err != nil {
+				ok = false
+				break
+			}
+			ct, tok := nodeTerm(c)
+			if !tok {
+				ok = false
+				break
+			}
+			var ob bytes.Buffer
+			if err := (kio.ByteWriter{Writer: &ob}).Write([]*kyaml.RNode{c}); err != nil {
+				ok = false
+				break
+			}
+			if !seenEnc[ct] {
+				seenEnc[ct] = true
+				encTerms = append(encTerms, fmt.Sprintf("(%s, %s)", ct, coqStr(ob.String())))
+			}
+		}
+		if !ok {
+			r.Meta.Skipped++
+			continue
+		}
+		var out string
+		cls, _ := protect(func() error {
+			var err error
+			out, err = roundTrip(s)
+			return err
+		})
+		if cls != ClsOk {
+			out = ""
+		}
+		r.AddCase(fmt.Sprintf("(T_stream %s [%s] [%s] %s %s %s)", coqStr(s), strings.Join(decTerms, "; "), strings.Join(encTerms, "; "),
+			coqStrList(nonstrOf(allNodes...)), cls, coqStr(out)), desc, cls == ClsOk && len(allNodes) > 1)
+		r.Count("text_stream", fmt.Sprintf("%s/%d", cls, len(allNodes)))
+	}
+}
+
 // ---------- round trip oracles ----------
 
 func roundTrip(s string) (string, error) {
@@ -1381,6 +1515,11 @@ func runC13(r *Run, rng *Rng, tier string) error {
 	}
 	keepTailCases(r)
 	emptyDocCases(r)
+	nText := 120
+	if tier == "thorough" {
+		nText = 1500
+	}
+	textStreamCases(r, rng.Fork(), nText)
 	// 3. annotations
 	annotationCases(r, rng.Fork())
 	// 4. package IO
